@@ -130,6 +130,7 @@ def worker(args):
         out["assumptions"] = sorted(asm)
         out["callees"] = sorted(cs.used)
         out["assumed_callees"] = {n: cs.contracts[n].assumed for n in cs.used if n in cs.contracts and cs.contracts[n].assumed}
+        out["callees"] = sorted(set(out["callees"]) | {v for n in out["assumed_callees"] for v in cs.contracts[n].verified_by})
         out["stats"] = dict(ex.stats)
     except Exception as e:      # noqa
         out["error"] = f"{type(e).__name__}: {e}\n{traceback.format_exc()[-1500:]}"
